@@ -594,6 +594,9 @@ class GroupBy:
         elif keep_chunked:
             # no pointers to unify, but we want to keep chunked so do nothing
             return
+        else:
+            # the chunks already hold global codes (unified earlier with keep_chunked=True)
+            chunks = [np.asarray(k) for k in self._group_ikey.chunks]
 
         if keep_chunked:
             self._group_ikey = pa.chunked_array(chunks)
